@@ -99,17 +99,17 @@ def gen_inputs(ctx, tier):
     vocab = gen_text.vocabulary()
     inputs = []
     exh_len = 3 if tier == "quick" else 4
-    for s in gen_text.exhaustive(gen_text.ALPHA20, exh_len):
+    for s in core.mine(gen_text.exhaustive(gen_text.ALPHA20, exh_len)):
         inputs.append(("exhaustive", s))
     ctx.observed["exhaustive_len"] = exh_len
-    n4 = 12000 if tier == "quick" else 60000
+    n4 = 12000 if tier == "quick" else core.share(60000)
     L = exh_len + 1
     for _ in range(n4):
         inputs.append(("sampled_len%d" % L, "".join(rng.choice(gen_text.ALPHA20) for _ in range(rng.randint(L, L + 3)))))
-    nsoup = 9000 if tier == "quick" else 150000
+    nsoup = 9000 if tier == "quick" else core.share(150000)
     for i in range(nsoup):
         inputs.append(("soup_balanced" if i % 4 else "soup_unbalanced", gen_text.soup(rng, vocab, balanced=bool(i % 4))))
-    nshaped = 8000 if tier == "quick" else 150000
+    nshaped = 8000 if tier == "quick" else core.share(150000)
     for _ in range(nshaped):
         inputs.append(("shaped", gen_text.shaped(rng)))
     # every exported procedure called with 0..3 arguments of assorted types, directly and from tail positions
@@ -132,12 +132,12 @@ def gen_inputs(ctx, tier):
             inner = toks[toks.index("begin") - 1:] if "begin" in toks else []
             forms += gen_text.split_toplevel(" ".join(inner[2:-2])) if inner else []
     forms = [f for f in forms if 1 < len(f) < 400]
-    nmut = 6000 if tier == "quick" else 120000
+    nmut = 6000 if tier == "quick" else core.share(120000)
     for _ in range(nmut):
         inputs.append(("mutant", gen_text.mutate_tokens(rng, rng.choice(forms), vocab)))
     for f in forms:
         inputs.append(("corpus", " ".join(f)))
-    nh = 3000 if tier == "quick" else 40000
+    nh = 3000 if tier == "quick" else core.share(40000)
     for _ in range(nh):
         inputs.append(("hostile_chars", gen_text.hostile(rng, vocab)))
     # the numeric tower reached from text: arithmetic over boundary literals
@@ -235,8 +235,9 @@ def run(tier, seed):
         recs = core.run_jobs(jobs, leg, timeout=240 if tier == "quick" else 1500, tag="c07", env_extra={})
         judge(ctx, jobs, chunks, recs, leg)
         ctx.legs.append(leg)
-    file_leg(ctx)
-    ctx.legs.append("files(api+cli)")
+    if core.PART_I == 0:
+        file_leg(ctx)
+        ctx.legs.append("files(api+cli)")
     if tier == "thorough":
         sanitizer_legs(ctx, inputs)
     for cls, text in inputs[:3] + inputs[len(inputs) // 2: len(inputs) // 2 + 3]:
